@@ -195,7 +195,8 @@ func (w SocialWrappedCallbacks) create(c context.Context, a vocab.ActivityStream
 		for iter := actors.Begin(); iter != actors.End(); iter = iter.Next() {
 			id, err := ToId(iter)
 			if err != nil {
-				return err
+				// Named without an id: nothing to copy over.
+				continue
 			}
 			createActorIds[id.String()] = id
 		}
@@ -219,7 +220,8 @@ func (w SocialWrappedCallbacks) create(c context.Context, a vocab.ActivityStream
 		for iter := attr.Begin(); iter != attr.End(); iter = iter.Next() {
 			id, err := ToId(iter)
 			if err != nil {
-				return err
+				// Named without an id: nothing to copy over.
+				continue
 			}
 			objectAttributedToIds[i][id.String()] = id
 		}
